@@ -221,6 +221,7 @@ class Instance_options_parser:
 
         if matching_problem == Matching_problem.SM:
             args.n2 = args.n1
+            args.upperquotas = args.n1
         if args.lowerquotas == None:
             args.lowerquotas = 0
         if args.lecturerlowerquotas == None:
